@@ -96,6 +96,8 @@ class character_iterator(slots_getstate_setstate):
                             return 0
                         if not self.input_string[self.i_char].isspace():
                             break
+                        if self.input_string[self.i_char] == "\n":
+                            self.line_number += 1
                         self.i_char += 1
                     for i_followup, followup in enumerate(followups):
                         if (
